@@ -144,6 +144,37 @@ fn seq_spec(ctx: &Ctx, shards: usize, w: i64) -> SeqSpec {
     }
 }
 
+/// Many keys due in one visit of one shard (more than any per-visit or lifetime budget a sweeper might have): the history
+/// starts after `n` puts with the same time-to-live; every sweep still removes exactly the keys that are due, releases
+/// their weight, and a second generation is swept like the first.
+fn many_keys_spec(ctx: &Ctx, n: u64) -> SeqSpec {
+    let quick = ctx.quick();
+    let prefix: Vec<Op> = (1..=n).map(|k| Op::Put { k, w: Some(1), ttl_ms: Some(1000) }).collect();
+    SeqSpec {
+        name: format!("seq/sweep-exactness/many-keys-due-at-once/n={}", n),
+        setup: Setup { weight: 10_000, shards: 2, buffer: 64, weight_fn: WeightFn::Const { c: 30, ttl_extra: 24 }, ..Setup::default() },
+        world: Default::default(),
+        prefix,
+        alphabet: vec![
+            Op::Advance { ms: 1000 },
+            Op::Advance { ms: 2000 },
+            Op::TickWait,
+            Op::ReadAll { keys: vec![1, n] },
+            Op::Put { k: n, w: Some(1), ttl_ms: Some(1000) },
+            Op::Put { k: n + 1, w: Some(1), ttl_ms: Some(1000) },
+            Op::Delete { k: 1 },
+        ],
+        depth: if quick { 6 } else { 8 },
+        allow: None,
+        oracle: seq_oracle(),
+        keys: (1..=n + 1).collect(),
+        canon_sketch: false,
+        ghost_key: Some(ghost_key(true)),
+        max_states: if quick { 80_000 } else { 3_000_000 },
+        time_cap_s: if quick { 10.0 } else { 600.0 },
+    }
+}
+
 fn ilv_oracle() -> Oracle {
     let loss = c03::ilv_oracle();
     Arc::new(move |run: &Run, out: &mut Vec<crate::harness::ilv::Finding>| {
@@ -257,6 +288,10 @@ pub fn def(ctx: &Ctx) -> PropertyDef {
         }
         let name = seq_spec(ctx, shards, w).name;
         scenarios.push(seq_scenario(move |c| seq_spec(c, shards, w), &name));
+    }
+    for n in [20u64, 70] {
+        let name = many_keys_spec(ctx, n).name;
+        scenarios.push(seq_scenario(move |c| many_keys_spec(c, n), &name));
     }
     for p in crate::harness::ilv::for_tier(ilv_programs(), quick) {
         scenarios.push({
